@@ -6,7 +6,6 @@ import (
 	"time"
 
 	dtpb "github.com/google/fhir/go/proto/google/fhir/proto/r4/core/datatypes_go_proto"
-	"github.com/shopspring/decimal"
 	"github.com/verily-src/fhirpath-go/internal/fhir"
 	"github.com/verily-src/fhirpath-go/internal/fhirconv"
 )
@@ -145,25 +144,15 @@ func (d Date) Less(input Any) (Boolean, error) {
 // Add returns the result of d + input. Returns an
 // error if it is not a valid time-valued quantity.
 func (d Date) Add(input Quantity) (Date, error) {
-	var result time.Time
-	value := int(decimal.Decimal(input.value).IntPart())
-	switch input.unit {
-	case "year", "years":
-		result = addYear(d.date, value)
-	case "month", "months":
-		result = addMonth(d.date, value)
-	case "week", "weeks":
-		value = 7 * value
-		result = d.date.AddDate(0, 0, value)
-	case "day", "days":
-		result = d.date.AddDate(0, 0, value)
-	default:
+	return d.add(input, 1)
+}
+
+func (d Date) add(input Quantity, sign int) (Date, error) {
+	// Units below a day are not supported on a Date.
+	if unit, err := input.calendarUnit(); err == nil && unit > unitDay {
 		return Date{}, fmt.Errorf("%w: can't add to date", ErrMismatchedUnit)
 	}
-
-	// Reformat to truncate date to initial precision. This causes the addition result
-	// to round down to the highest precision value.
-	result, err := time.Parse(string(d.l), result.Format(string(d.l)))
+	result, err := addQuantity(d.date, input, d.precisionUnit(), sign)
 	if err != nil {
 		return Date{}, err
 	}
@@ -173,42 +162,18 @@ func (d Date) Add(input Quantity) (Date, error) {
 // Sub returns the result of d - input. Returns an error if the
 // input does not represent a valid time-valued quantity.
 func (d Date) Sub(input Quantity) (Date, error) {
-	// Handle partial dates by rounding quantity to appropriate precision.
-	// Subtraction is not symmetric with addition, so the solution of truncation
-	// as done in Add, cannot be applied here.
-	if d.l == yearLayout {
-		years, err := input.toYears()
-		if err != nil {
-			return Date{}, err
-		}
-		return Date{d.date.AddDate(-years, 0, 0), d.l}, nil
-	}
-	if d.l == monthLayout {
-		months, err := input.toMonths()
-		if err != nil {
-			return Date{}, err
-		}
-		return Date{d.date.AddDate(0, -months, 0), d.l}, nil
-	}
+	return d.add(input, -1)
+}
 
-	// subtract appropriate position of date, for non-partial dates.
-	var result time.Time
-	value := -int(decimal.Decimal(input.value).IntPart())
-	switch input.unit {
-	case "year", "years":
-		result = addYear(d.date, value)
-	case "month", "months":
-		result = addMonth(d.date, value)
-	case "week", "weeks":
-		value = 7 * value
-		result = d.date.AddDate(0, 0, value)
-	case "day", "days":
-		result = d.date.AddDate(0, 0, value)
-	default:
-		return Date{}, fmt.Errorf("%w: can't add to date", ErrMismatchedUnit)
+// precisionUnit returns the calendar unit of the date's finest component.
+func (d Date) precisionUnit() timeUnit {
+	switch d.l {
+	case yearLayout:
+		return unitYear
+	case monthLayout:
+		return unitMonth
 	}
-
-	return Date{result, d.l}, nil
+	return unitDay
 }
 
 // Name returns the type name.
